@@ -23,3 +23,5 @@ import MicroHttp.Props.C10History
 #print axioms MicroHttp.Tables.server_new
 #print axioms MicroHttp.Tables.server_new_from_fd
 #print axioms MicroHttp.Tables.client_new
+#print axioms MicroHttp.Tables.client_fields
+#print axioms MicroHttp.Tables.server_fields
